@@ -90,6 +90,57 @@ class Graph:
         if util.c3_of_bases(bases, eff_bases) is None:
             self.ctx.violation('strict-no-raise-on-inconsistent', {'what': what, 'bases': nm(bases)})
 
+    def add_twin(self):
+        """An interface object equal (same name and module) to an existing one, but a
+        different object.  Reachability is by identity, so specifications based on the
+        original and on the twin must be kept apart.  To stay clear of the documented
+        artefact (two *equal dependents* of one base collide in its weak ``dependents``
+        dictionary) a twin is only ever based on the root or on a private pool that
+        nothing else uses, and nothing but the swap operation below is based on it."""
+        cands = [n for n in self.nodes if n.kind == 'iface' and not any(m.kind == 'twin' and m.name == n.name + '~' for m in self.nodes)]
+        if not cands or STRICT:
+            return None
+        orig = self.rng.choice(cands)
+        spec = InterfaceClass(orig.spec.__name__, (Interface,), {}, __module__=self.module)
+        n = Node('twin', spec, orig.name + '~')
+        n.obj = orig
+        self.nodes.append(n)
+        if not hasattr(self, 'twin_pool'):
+            self.twin_pool = [util.mkiface(self.newname('TP'), module=self.module) for _ in range(2)]
+        self.ctx.op('twin', n.name)
+        self.ctx.count('twins')
+        return n
+
+    def twin_ops(self):
+        """Swap a base for its equal twin (or back), or re-base a twin."""
+        rng = self.rng
+        twins = [n for n in self.nodes if n.kind == 'twin']
+        if not twins:
+            return False
+        t = rng.choice(twins)
+        orig = t.obj
+        before = self.reach_sets()
+        if rng.random() < 0.5:
+            holders = [m for m in self.nodes if m.kind in ('iface', 'decl') and m is not orig and
+                       any(b is orig.spec or b is t.spec for b in m.spec.__bases__)]
+            # never let a specification that the original depends on depend on the twin (cycle by equality)
+            holders = [m for m in holders if id(m.spec) not in util.reach(orig.spec, util.spec_bases)[0]]
+            if not holders:
+                return False
+            m = rng.choice(holders)
+            nb = tuple(t.spec if b is orig.spec else orig.spec if b is t.spec else b for b in m.spec.__bases__)
+            self.ctx.op('swap-equal-base', m.name, [self.name_of(b) for b in nb])
+            m.spec.__bases__ = nb
+            idx = self.nodes.index(m)
+        else:
+            nb = tuple(rng.sample(self.twin_pool, rng.randint(0, 2))) or (Interface,)
+            self.ctx.op('rebase-twin', t.name, [x.__name__ for x in nb])
+            t.spec.__bases__ = nb
+            idx = self.nodes.index(t)
+        self.ctx.count('twin_mutations')
+        self.after_mutation(idx, before, 'twin')
+        return True
+
     def add_decl(self):
         rng = self.rng
         cands = self.lower(len(self.nodes), ('iface', 'decl', 'impl'))
@@ -221,7 +272,7 @@ class Graph:
 
     def rebase(self):
         rng = self.rng
-        cand = [i for i, n in enumerate(self.nodes) if i > 0]
+        cand = [i for i, n in enumerate(self.nodes) if i > 0 and n.kind != 'twin']
         if not cand:
             return False
         # prefer nodes that have dependents
@@ -306,6 +357,9 @@ class Graph:
         extra = [Interface, _empty, foreign]
         for S in specs + [_empty, Interface]:
             rs, rl = util.reach(S, util.spec_bases)
+            if self.conflated(S, rl):
+                self.ctx.count('conflated_ancestries_skipped')
+                continue
             want = {id(S)} | rs | {id(Interface)}
             sro = S.__sro__
             ctx.ev()
@@ -317,9 +371,16 @@ class Graph:
             ctx.ev()
             if len(iro) != len(filt) or not all(a is b for a, b in zip(iro, filt)):
                 ctx.violation('iro-not-filtered-sro', {'spec': self.name_of(S), 'iro': nm(iro), 'sro': [self.name_of(x) for x in sro]})
+            anc = [S] + rl
             for T in specs + extra:
-                exp_ioe = T is S or id(T) in rs or T is Interface
-                exp_ext = (id(T) in rs or T is Interface) and T is not S
+                # "is" / "reachable" are modulo interface equality: an equal twin (same name and
+                # module) *is* that interface as far as the library is concerned (C12); with the
+                # unique names used everywhere else this is plain identity
+                same = T is S or (isinstance(T, InterfaceClass) and isinstance(S, InterfaceClass) and T == S)
+                reachable = id(T) in rs or T is Interface or \
+                    (isinstance(T, InterfaceClass) and any(isinstance(x, InterfaceClass) and x == T for x in rl))
+                exp_ioe = same or reachable
+                exp_ext = reachable and not same
                 exp_ext0 = exp_ioe
                 ctx.ev(3)
                 ctx.count('pair_checks')
@@ -334,21 +395,34 @@ class Graph:
         for n in self.nodes:
             if n.kind == 'prov':
                 spec = providedBy(n.obj)
-                rs, _ = util.reach(spec, util.spec_bases)
+                rs, rl_ = util.reach(spec, util.spec_bases)
                 for m in self.nodes:
                     if m.kind == 'iface':
                         ctx.ev()
-                        exp = id(m.spec) in rs
+                        exp = id(m.spec) in rs or any(isinstance(x, InterfaceClass) and x == m.spec for x in rl_)
                         if bool(m.spec.providedBy(n.obj)) != exp:
                             ctx.violation('providedBy-vs-reach', {'obj': n.name, 'iface': m.name, 'expected': exp})
             elif n.kind == 'impl':
-                rs, _ = util.reach(n.spec, util.spec_bases)
+                rs, rl_ = util.reach(n.spec, util.spec_bases)
                 for m in self.nodes:
                     if m.kind == 'iface':
                         ctx.ev()
-                        exp = id(m.spec) in rs
+                        exp = id(m.spec) in rs or any(isinstance(x, InterfaceClass) and x == m.spec for x in rl_)
                         if bool(m.spec.implementedBy(n.cls)) != exp:
                             ctx.violation('implementedBy-vs-reach', {'cls': n.name, 'iface': m.name, 'expected': exp})
+
+    @staticmethod
+    def conflated(S, rl):
+        """An ancestry holding two distinct but equal interfaces: the library treats them as
+        one interface (equality-keyed tables), so identity-based expectations do not apply."""
+        keys = {}
+        for x in [S] + rl:
+            if isinstance(x, InterfaceClass):
+                k = (x.__name__, x.__module__)
+                if k in keys and keys[k] is not x:
+                    return True
+                keys[k] = x
+        return False
 
     def check_twin(self):
         """Rebuild the whole graph from nothing with new objects of the same
@@ -384,6 +458,8 @@ class Graph:
             back[id(t)] = s
         for s in order:
             t = twin[id(s)]
+            if self.conflated(s, util.reach(s, util.spec_bases)[1]):
+                continue
             got = list(s.__sro__)
             exp = [back[id(x)] for x in t.__sro__]
             ctx.ev()
@@ -516,6 +592,8 @@ def run_case(ctx, rng, job):
             g.add_class()
         else:
             g.add_instance()
+    if prop == 'C02' and rng.random() < 0.35:
+        g.add_twin()
     check = (lambda: (g.check_reach(), g.check_twin())) if prop == 'C02' else g.check_orders
     if not g.dead:
         check()
@@ -525,6 +603,11 @@ def run_case(ctx, rng, job):
         if g.dead or len(g.nodes) < 2:
             break
         r = rng.random()
+        if prop == 'C02' and any(m.kind == 'twin' for m in g.nodes) and rng.random() < 0.5:
+            if g.twin_ops():
+                done += 1
+                check()
+            continue
         if r < 0.12:
             g.drop_leaf()
         elif r < 0.2:
